@@ -195,12 +195,15 @@ def main():
         ores = oracles.run(pid, tables, seed, tier, intensify)
         return diffs_all, ores
 
-    corr_diffs, ores = one_pass(False)
+    changed = src_changed_files()
+    if changed:
+        log.append("source differs from the recorded baseline in %s: the deep generators run at once" % ", ".join(changed))
+    corr_diffs, ores = one_pass(bool(changed) and tier != "thorough")
     if pid == "C07" and corr_diffs:
         # an operation on which the real code panicked is a crashing line content: confirm it through the real CLI
         ores["violations"] = ores["violations"] + oracles.panics_of_correspondence(corr_diffs)
     concrete = [v for v in ores["violations"] if not v.get("correspondence") and not [k for k in kf if k.get("site") == v.get("site")]]
-    if (proof_failures or corr_diffs) and not concrete and tier != "thorough":
+    if (proof_failures or corr_diffs) and not concrete and tier != "thorough" and not changed:
         log.append("deep pass: an obligation or the correspondence broke and the first pass found no failing input")
         corr_diffs2, ores = one_pass(True)
         corr_diffs = corr_diffs2 or corr_diffs
